@@ -215,6 +215,14 @@ func c10Run(t *testing.T, c *choice.Stream, r *Result, opt RunOpt, forced *c10Fo
 		partial := silence && partial0
 		partial0 = partial0 && useDeadline && c.Bool("silence.partial.deadline", 2, 3)
 		partialFrac := c.Draw("silence.partial.at", 1000)
+		// the packet the server begins and never finishes may be an exception
+		var partialExc []byte
+		if c.Bool("silence.partial.exc", 1, 3) {
+			partialExc = (&SPacket{Kind: "exception", Exc: DrawExceptionChain(c)}).Encode(cf)
+			if c.Bool("silence.partial.exc.head", 1, 2) {
+				partialFrac = c.Draw("silence.partial.exc.at", 12) // inside the code and the first fields
+			}
+		}
 		var cancelLateAt time.Duration = -1
 		doCancel := func() {
 			fired = true
@@ -240,6 +248,9 @@ func c10Run(t *testing.T, c *choice.Stream, r *Result, opt RunOpt, forced *c10Fo
 				}
 				srv.Script = srv.Script[:srv.ScriptPos()]
 				srv.Auto = nil
+				if partialExc != nil {
+					next = partialExc
+				}
 				if partial && len(next) > 1 && !useDeadline {
 					k := 1 + partialFrac%(len(next)-1)
 					conn.Enqueue(next[:k])
@@ -375,6 +386,9 @@ func c10Run(t *testing.T, c *choice.Stream, r *Result, opt RunOpt, forced *c10Fo
 						}
 						srv.Script = srv.Script[:srv.ScriptPos()]
 						srv.Auto = nil
+						if partialExc != nil {
+							next = partialExc
+						}
 						if len(next) > 1 {
 							conn.Enqueue(next[:1+partialFrac%(len(next)-1)])
 							r.Fire("silent_mid_packet_before_deadline")
